@@ -319,6 +319,8 @@ CONFIG = {
                       "slices and capacities. Which Go operation is which case is established by running every operation on sentinel-guarded buffers.",
         "level_note": "The theorems are about the memory model, not about each Go function; the tie is the guarded-buffer stream (sampled). "
                       "Memory reachable only through unsafe or cgo is out of scope.",
+        "extractors": [{"name": "sharedstate", "out": "SharedState.lean"}],
+        "extra_modules": ["PatVerif.Proofs.SharedState"],
         "trusted_base": COMMON_TB,
         "assumptions": ["Go's append semantics as modelled (in place iff len+n ≤ cap)"],
         "contradicts": "PatVerif.Props.C16",
@@ -352,6 +354,8 @@ CONFIG = {
         "level_note": "PARTIAL: the theorem is about the footprint abstraction; Go's memory model, the scheduler and data races inside dependencies are not "
                       "modelled — the race detector observes them on the executed interleavings, it does not prove their absence. Sharing one circl "
                       "oprf.PublicKey object between clients is circl's contract, not pat-go's, and is not exercised.",
+        "extractors": [{"name": "sharedstate", "out": "SharedState.lean"}],
+        "extra_modules": ["PatVerif.Proofs.SharedState"],
         "trusted_base": COMMON_TB + ["Go race detector (ThreadSanitizer) as the oracle for footprints"],
         "assumptions": ["footprints of the Go calls are as observed"],
         "race": True,
